@@ -28,6 +28,7 @@ ASSUMPTIONS = [
     'range restrictions from prose (negative widths etc.) are not asserted; values are generated non-negative',
     'CSS 2.1 system colours (ButtonFace ...) are not generated: the CSS3 colour profile, which redefines {color}, leaves them out on purpose (pinned by test_profiles; listed finding F13-3)',
     'a leading "+" on numbers is not generated for the reference direction (not matched by the profile macros: listed finding F13-1)',
+    'the CSS3 Color keywords transparent / currentColor on colour properties are not judged by the CSS 2.1 grammar: the registered CSS3 Color profile redefines the {color} macro for all profiles (found by the thorough tier, an oracle over-reach, see DESIGN 9.5)',
 ]
 
 BORDER_STYLE = ['none', 'hidden', 'dotted', 'dashed', 'solid', 'double', 'groove', 'ridge', 'inset', 'outset']
@@ -261,7 +262,11 @@ def check_verdict(case, ctx):
             exp = ref_valid(name, value, classes)
             if exp and not verdict:
                 raise Violation('reference:css21-valid-reported-invalid', f'{name}: {value}')
-            if not exp and verdict and len(profiles_defining(name)) == 1:
+            css3_colour = 'color' in SPEC[name][1] and value.lower() in ('transparent', 'currentcolor')
+            if not exp and verdict and css3_colour:
+                # the registered CSS3 Color profile redefines the <color> macro for every profile: not judged by the 2.1 grammar
+                ctx.event('reference:css3-colour-keyword-not-judged')
+            elif not exp and verdict and len(profiles_defining(name)) == 1:
                 raise Violation('reference:css21-invalid-reported-valid', f'{name}: {value}')
             ctx.event('reference:' + ('valid' if exp else 'invalid'))
         ctx.event('verdict:' + str(verdict))
